@@ -3,6 +3,7 @@
 from __future__ import annotations
 
 import ast
+import os
 import math
 import re
 
@@ -75,6 +76,10 @@ def run(rep: core.Report):
     _r17l(rep)
     _r17m(rep)
     _r17n(rep)
+    import glob as _glob
+    from rules import c16 as _c16
+
+    _c16._r16j(rep, "R17o", sorted(os.path.relpath(f_, core.REPO) for f_ in _glob.glob(str(core.REPO / "phonopy/interface/*.py"))))
     from rules import shared_bcast
 
     shared_bcast.run(rep, "R17j", sorted(core.python_files("phonopy/interface")))
@@ -1059,6 +1064,7 @@ def selftest():
     V = []
     b = lambda name, file, old, new, rule, expect="", **kw: V.append(dict(name=name, kind="break", file=file, old=old, new=new, rule=rule, expect=expect, **kw))
     n = lambda name, file, old, new, **kw: V.append(dict(name=name, kind="neutral", file=file, old=old, new=new, **kw))
+    b("SIESTA reader writes parsed tags into the class-level dictionary", "phonopy/interface/siesta.py", "        self._tags = self._tags.copy()\n", "", "R17o", "SiestaIn")
     b("DFTB+ type indices from the sorted unique symbols", "phonopy/interface/dftbp.py", "    atom_numbers = []\n    for ss in expaned_symbols:\n        atom_numbers.append(symbols.index(ss) + 1)\n", "    _, atom_numbers = np.unique(expaned_symbols, return_inverse=True)\n    atom_numbers = atom_numbers + 1\n", "R17n", "write_dftbp")
     b("ABINIT typat looked up in the sorted numbers", "phonopy/interface/abinit.py", "        typat.append(znucl.index(n) + 1)", "        typat.append(sorted(znucl).index(n) + 1)", "R17n", "get_abinit_structure")
     b("Elk per-vector scales applied to the Cartesian columns", "phonopy/interface/elk.py", "    avec = [tags[\"scale\"][i] * np.array(tags[\"avec\"][i]) for i in range(3)]\n", "    avec = np.array(tags[\"avec\"], dtype=\"double\") * tags[\"scale\"]\n", "R17m", "read_elk")
